@@ -170,6 +170,7 @@ def make_scenarios(rng, tier, seed):
     big = tier == 'thorough'
     out = []
     n_w = 60 if big else 22
+    n_long = 0
     for s in range(n_w):
         nch = rng.choice([2, 3, 4, 4, 5, 5])
         NFFT = rng.choice([8, 16, 16, 32, 32, 64, 7, 15, 33] if not big else [8, 16, 32, 64, 64, 128, 7, 15, 33, 63])
@@ -180,10 +181,21 @@ def make_scenarios(rng, tier, seed):
         nov = None if c < 0.3 else (0 if c < 0.4 else rng.randrange(0, NFFT))      # explicit 0 is a value, not "unset"
         if rng.random() < 0.08:
             n = rng.randrange(NFFT // 2 + 1, NFFT + 2)       # at most one segment, zero padded
-        if n > 256:      # keep the number of segments of long records near 60 (the model's DFT is the naive one)
-            min_step = min(NFFT, (n - NFFT) // 60 + 1)
-            if nov is not None and NFFT - nov < min_step:
-                nov = NFFT - min_step
+        if n > 256:
+            # long records are expensive for the model (naive DFT over linked lists): a bounded number of them per
+            # run, few channels, and about 30 segments
+            n_long += 1
+            if n_long > 6:
+                n = rng.choice([128, 200, 256])
+            else:
+                if n >= 2048:
+                    n, nch = (2048, 2) if n_long == 1 else (1024, nch)
+                nch = min(nch, 3)
+                if nov is None:
+                    nov = NFFT // 2
+                min_step = min(NFFT, (n - NFFT) // 30 + 1)
+                if NFFT - nov < min_step:
+                    nov = NFFT - min_step
         wk = rng.choice(['hann', 'hann', 'hamming', 'boxcar', 'rand'])
         Fs = rng.choice([1.0, 2.0, 2 * math.pi, 10.0, 0.5, 250.0, rng.uniform(0.1, 100)])
         data = gen_data(nr, nch, n)
